@@ -98,6 +98,12 @@ def derive(ctx, rng, case):
     except Unsat:
         ctx.count("unsat_skipped")
         return None
+    v0 = v
+    if isinstance(v, list) and rng.random() < 0.35:
+        # partial list values with a ... placeholder: the result is an ellipsis element list that keeps the
+        # original length constraints (a state declaration cannot reach)
+        k = rng.randint(0, len(v))
+        v = rng.choice((v[:k] + [...], [...] + v[k:], [...] + v[k:k + 1] + [...] if v[k:k + 1] else v[:k] + [...]))
     try:
         res = substitute(schema, v)
     except SubstitutionError:
@@ -106,7 +112,7 @@ def derive(ctx, rng, case):
     except Exception:
         ctx.count("substitute_raised(C12)")
         return None
-    errs, exc = O.real_validate(res, v)
+    errs, exc = O.real_validate(res, v0)
     if exc is not None or errs:
         ctx.count("subst_result_rejects_value(C04)")
         return None
